@@ -59,6 +59,7 @@ def thr (r : Fin n) : Ev n → Thr n
   | .searchResult v => .T v
   | .searchLeave v _ => .T v
   | .spawn v _ => .T v          -- the new thread itself registers with its parent (`addChild`)
+  | .tend v => .T v
   | .exit _ => .P               -- `~WorkerThread` runs in the protocol thread (`removeChild`)
   | .pWr _ _ => .P
   | .pWd _ => .P
@@ -87,6 +88,7 @@ def acc (r : Fin n) (s : St n) : Ev n → List (Acc n)
   | .searchResult v => [wr (.job v)] ++ searchReads
   | .searchLeave v _ => [wr (.job v)] ++ searchReads
   | .spawn v p => [wr (.children p) (some (.qmutex p)), wr (.counters v), wr (.job v)]
+  | .tend _ => []
   | .exit v => match s.parent v with
       | some p => [wr (.children p) (some (.qmutex p))]
       | none => []
@@ -117,12 +119,12 @@ def conflict (a b : Acc n) : Prop :=
   a.loc = b.loc ∧ (a.write = true ∨ b.write = true) ∧ a.loc.atomic = false ∧
   ¬ (∃ k, a.lock = some k ∧ b.lock = some k)
 
-/-- `~WorkerThread` destroys a helper while its parent's thread is not running (blocked in `wait` or finished),
+/-- `~Communicator` of a helper runs while its parent's thread is not running (blocked in `wait`, finished or terminated),
     or the parent is the root (the engine thread is in its main loop then).  The current C++ code does NOT
     guarantee this for helper parents (known finding `worker-destroy-vs-poll`): the acceptor checks it per event. -/
 def exitQuiet (r : Fin n) (s : St n) : Ev n → Prop
   | .exit v => match s.parent v with
-      | some p => p = r ∨ s.pc p = .wait ∨ s.pc p = .done
+      | some p => p = r ∨ s.pc p = .wait ∨ s.pc p = .done ∨ s.pc p = .gone
       | none => True
   | _ => True
 
@@ -193,6 +195,7 @@ theorem pend_optsFin {r : Fin n} {s : St n} (h : Reach r s) : s.pend = true → 
         · cases hs
       · cases hs
     case spawn v p => unfold stepSpawn at hs; split at hs <;> cases hs; exact ih
+    case tend v => unfold stepTend at hs; split at hs <;> cases hs; exact ih
     case exit v => unfold stepExit at hs; split at hs <;> cases hs; exact ih
     case eRdPre x =>
       unfold stepERdPre at hs
